@@ -607,8 +607,7 @@ def run_C13(ctx):
     ctx.notes.append("race runs: %d fresh processes x 16 threads" % n)
     # the build script, run directly under every switch combination, against its model
     check_build_script(ctx)
-    if not q:
-        check_all_switches_build(ctx)
+    check_all_switches_build(ctx)
 
 
 def build_rs_model(std, miri, disable, rtonly, feats, version_ok, features_set=True):
@@ -671,27 +670,43 @@ def check_build_script(ctx):
     ctx.notes.append("build.rs executed under %d environments" % n)
 
 
-def check_all_switches_build(ctx):
-    """every combination of std x the two disable switches x 4 target-feature sets must compile"""
-    n = 0
-    for std in (True, False):
+def check_all_switches_build(ctx, stds=(True, False)):
+    """every combination of std x the two disable switches x 4 target-feature sets must compile
+       (the switches are passed the documented way, as --cfg flags, so cargo hands them to build.rs
+       as CARGO_CFG_* variables)"""
+    import concurrent.futures as cf
+    combos = []
+    for std in stds:
         for dis in (False, True):
             for rt in (False, True):
                 for tf in ("", "+sse4.2", "+avx2", "+sse4.2,+avx2"):
-                    env = {"CARGO_TARGET_DIR": os.path.join(BUILD, "cargo", "switches", "%d%d%d%s" % (std, dis, rt, tf.replace("+", "").replace(",", "_").replace(".", ""))),
-                           "RUSTFLAGS": ("-C target-feature=" + tf) if tf else ""}
-                    if dis:
-                        env["CARGO_CFG_HTTPARSE_DISABLE_SIMD"] = "1"
-                    if rt:
-                        env["CARGO_CFG_HTTPARSE_DISABLE_SIMD_COMPILETIME"] = "1"
-                    cmd = ["cargo", "check", "--offline", "--lib"] + ([] if std else ["--no-default-features"])
-                    rc, out = sh(cmd, cwd=REPO, env=env, timeout=600)
-                    n += 1
-                    ctx.evaluations += 1
-                    if rc != 0:
-                        ctx.fail("switches", "switch combination std=%s disable=%s runtime_only=%s target-feature=%s does "
-                                 "not build: %s" % (std, dis, rt, tf, out[-300:]))
-    ctx.notes.append("%d switch combinations cargo-checked" % n)
+                    combos.append((std, dis, rt, tf))
+
+    def one(c):
+        std, dis, rt, tf = c
+        flags = []
+        if tf:
+            flags.append("-C target-feature=" + tf)
+        if dis:
+            flags.append('--cfg httparse_disable_simd="1"')
+        if rt:
+            flags.append('--cfg httparse_disable_simd_compiletime="1"')
+        name = "%d%d%d%s" % (std, dis, rt, tf.replace("+", "").replace(",", "_").replace(".", ""))
+        env = {"CARGO_TARGET_DIR": os.path.join(BUILD, "cargo", "switches", name), "RUSTFLAGS": " ".join(flags)}
+        cmd = ["cargo", "check", "--offline", "--lib"] + ([] if std else ["--no-default-features"])
+        rc, out = sh(cmd, cwd=REPO, env=env, timeout=900)
+        return c, rc, out
+
+    with cf.ThreadPoolExecutor(max_workers=8) as ex:
+        res = list(ex.map(one, combos))
+    for (std, dis, rt, tf), rc, out in res:
+        ctx.evaluations += 1
+        ctx.nontrivial.add(("switches", std, dis, rt, tf))
+        if rc != 0:
+            err = [l for l in out.splitlines() if l.startswith("error")][:3]
+            ctx.fail("switches", "switch combination std=%s httparse_disable_simd=%s httparse_disable_simd_compiletime=%s "
+                     "target-feature=%s does not build: %s" % (std, dis, rt, tf or "-", " | ".join(err)[:300]))
+    ctx.notes.append("%d switch combinations cargo-checked" % len(combos))
 
 
 # ---------------------------------------------------------------- C15
@@ -810,10 +825,13 @@ def run_C16(ctx):
         cap = corpora.pick_cap(r, h, j)
         ids = [("h", 0, "c16h.%d.h" % j)]
         cases.append(("A", "c16h.%d.h" % j, "h", 0, 0, cap, h))
+        starts = {"q": [b"GET / HTTP/1.1\r\n", b"GET / HTTP/1.1\n", b"POST /a/b?c=d HTTP/1.0\n", b"\r\n\nM-SEARCH * HTTP/1.1\r\n"],
+                  "p": [b"HTTP/1.1 200 OK\r\n", b"HTTP/1.0 404\n", b"HTTP/1.1 301 Moved Permanently\n", b"\nHTTP/1.1 200 \r\n"]}
         for kind in "qp":
-            sl = gen.START[kind]
-            cases.append(("A", "c16h.%d.%s" % (j, kind), kind, 0, 0, cap, sl + h))
-            ids.append((kind, len(sl), "c16h.%d.%s" % (j, kind)))
+            for si, sl in enumerate(starts[kind]):
+                cid = "c16h.%d.%s%d" % (j, kind, si)
+                cases.append(("A", cid, kind, 0, 0, cap, sl + h))
+                ids.append((kind, len(sl), cid))
         groups.append(("headers", ids))
     res = execute("C16", cases)
     ctx.broken += res.errors
@@ -962,6 +980,8 @@ def run_C19(ctx):
             ctx.sample(c, iraw)
             if int(m.group(2)) != 0:
                 ctx.fail(c, "%s heap allocation(s) during the parse call (%s)" % (m.group(2), variant), impl=iraw)
+    # every no_std switch combination must build against core alone
+    check_all_switches_build(ctx, stds=(False,))
     # the crate alone, against core only
     env = {"CARGO_TARGET_DIR": os.path.join(BUILD, "cargo", "nostd-lib")}
     rc, out = sh(["cargo", "build", "--offline", "--lib", "--no-default-features"], cwd=REPO, env=env, timeout=600)
@@ -1012,3 +1032,42 @@ def run_C20(ctx):
                 ctx.validated += 1
                 if Obs(mm).status != st:
                     ctx.mismatch(c, iraw, mm)
+    time_scaling(ctx)
+
+
+def time_scaling(ctx):
+    """work that does not go through the cursor (re-validating or re-trimming a slice) is invisible to the
+       counters: measure wall-clock scaling on the adversarial families.  Linear work gives a factor ~4 between
+       n and 4n; the verdict needs a factor above 10 on inputs that take at least 2 ms (minimum of 5 runs)."""
+    small, big = (32768, 131072) if ctx.quick else (65536, 262144)
+    fams = {}
+    for c in corpora.adversarial(ctx.seed, [small, big]):
+        fam = c[1].split(".")[1]
+        if c[1].endswith(".big"):
+            continue
+        fams.setdefault(fam, {})[len(c[6])] = c
+    cases = [c for d in fams.values() for c in d.values()]
+    res = execute("C20-time", cases, mode="time", want_model=False, use_cache=False)
+    ctx.broken += res.errors
+    t = {}
+    for cid, raw in res.impl.items():
+        m = re.search(r"ns=(\d+)", raw)
+        if m:
+            t[cid] = int(m.group(1))
+    for fam, d in fams.items():
+        sizes = sorted(d)
+        if len(sizes) != 2:
+            continue
+        a, b = d[sizes[0]], d[sizes[1]]
+        ta, tb = t.get(a[1]), t.get(b[1])
+        if not ta or not tb:
+            continue
+        ctx.evaluations += 2
+        ratio = tb / max(ta, 1)
+        size_ratio = sizes[1] / max(sizes[0], 1)
+        ctx.notes.append("time %s: %d B %.3f ms, %d B %.3f ms, ratio %.1f (size ratio %.1f)"
+                         % (fam, sizes[0], ta / 1e6, sizes[1], tb / 1e6, ratio, size_ratio))
+        if tb >= 2_000_000 and ratio > 2.5 * size_ratio:
+            ctx.fail(b, "time grows super-linearly on the %s family: %.3f ms for %d bytes, %.3f ms for %d bytes "
+                     "(ratio %.1f for a size ratio of %.1f)" % (fam, ta / 1e6, sizes[0], tb / 1e6, sizes[1], ratio, size_ratio),
+                     impl="ns=%d" % tb)
